@@ -4,6 +4,7 @@ package main
 
 import (
 	"encoding/json"
+	"strings"
 )
 
 func decideBody(b J) (int, []byte) {
@@ -109,4 +110,32 @@ func c02Invalidate(r *Rng, q *Req) {
 			"referencePoints": J{"function": []string{"ideal", "centroid"}[r.Intn(2)]},
 			"applier":         J{"function": []string{"inlined", "inline"}[r.Intn(2)], "params": J{}}}})
 	}
+}
+
+// choquetSibling: the same Choquet request with the capacities of the single criteria rotated (same multiset of
+// numbers over the same coalitions): a second, different model that a lossy cache key would confuse with the first
+func choquetSibling(q *Req) *Req {
+	if q.Method != "choquetIntegral" {
+		return nil
+	}
+	b := cloneJ(q.Body)
+	w, ok := b["methodParameters"].(J)["weights"].(J)
+	if !ok {
+		return nil
+	}
+	var singles []string
+	for _, k := range sortedJKeys(w) {
+		if !strings.Contains(k, ",") {
+			singles = append(singles, k)
+		}
+	}
+	if len(singles) < 2 {
+		return nil
+	}
+	first := w[singles[0]]
+	for i := 0; i+1 < len(singles); i++ {
+		w[singles[i]] = w[singles[i+1]]
+	}
+	w[singles[len(singles)-1]] = first
+	return &Req{Method: q.Method, Problem: q.Problem, Biases: q.Biases, Body: b}
 }
